@@ -62,6 +62,7 @@ pub fn c01(ctx: &Ctx) -> Collector {
     // automatic mode on long strings with one character of another class at every position, and on two-run strings: a
     // detection slip that still yields a symbol shows as a payload that decodes to something else
     run_space(&col, 64, &s_long_auto(ctx.tier.thorough()), &p, true, &no_extra);
+    run_space(&col, 66, &s_edges(ctx.tier.thorough()), &p, true, &no_extra);
     run_space(&col, 65, &s_mixed_auto(if ctx.tier.thorough() { 64 } else { 48 }, ctx.tier.thorough()), &p, true, &no_extra);
     run_histories(&col, 22, &p, ctx.tier.thorough());
     run_space(&col, 23, &spaces::s_antimask(ctx.tier.thorough()), &p, true, &no_extra);
@@ -329,6 +330,7 @@ pub fn c05(ctx: &Ctx) -> Collector {
     // automatic mode on long strings of each alphabet with one other character at every position (the version is the
     // smallest for the mode the content has; a detection slip shows as a panic or a wrong version)
     run_space(&col, 16, &s_long_auto(ctx.tier.thorough()), &p, false, &no_extra);
+    run_space(&col, 17, &s_edges(ctx.tier.thorough()), &p, false, &no_extra);
     run_space(&col, 8, &s_long_foreign(ctx.tier.thorough()), &p, false, &no_extra);
     run_space(&col, 9, &s_default_level_big(), &p, false, &no_extra);
     if ctx.tier.thorough() {
@@ -482,6 +484,55 @@ pub fn s_long_auto(thorough: bool) -> Space {
 /// S_mixed_auto: strings made of a run of one class followed by a run of another (digits then alphanumeric
 /// letters, letters then digits, and the same with a lowercase tail), of every length up to `max_len` and every
 /// split point, clean and with one foreign byte at every position; automatic mode; version automatic and forced to
+/// S_edges: payloads whose first or last character is one that an input clean-up would drop (NUL, blank, line ends, tab
+/// in Byte; blank and '0' in Alphanumeric; '0' in Numeric), at a length equal to a capacity and one beyond it, for the
+/// (version, level) pairs around the count-width boundaries and both ends of the range. One dropped character moves
+/// such a payload across the threshold: the version, the error or the decoded payload shows it.
+pub fn s_edges(thorough: bool) -> Space {
+    let mut cases = vec![];
+    let versions: Vec<usize> = if thorough { (1..=40).collect() } else { vec![1, 2, 9, 10, 26, 27, 39, 40] };
+    for m in 0..3usize {
+        let chars: &[u8] = match m {
+            0 => b"0",
+            1 => b" 0",
+            _ => &[0x00, b' ', b'\n', b'\r', b'\t'],
+        };
+        for &v in &versions {
+            for e in 0..4usize {
+                let cap = r::cap(v, e, m);
+                for len in [cap, cap + 1] {
+                    if len == 0 {
+                        continue;
+                    }
+                    for &ch in chars {
+                        for at_end in [false, true] {
+                            let mut p = spaces::content(Family::Ctr, m, len);
+                            let i = if at_end { len - 1 } else { 0 };
+                            p[i] = ch;
+                            // the neighbour is not one of them (a single character is at stake)
+                            if len > 1 {
+                                let j = if at_end { len - 2 } else { 1 };
+                                if chars.contains(&p[j]) {
+                                    p[j] = match m {
+                                        0 => b'7',
+                                        1 => b'K',
+                                        _ => b'x',
+                                    };
+                                }
+                            }
+                            cases.push(Case::new(p.clone(), Opts { mode: Some(m as u8), ecl: Some(e as u8), ..Opts::default() }));
+                            if len == cap + 1 && v < 40 {
+                                cases.push(Case::new(p, Opts { mode: Some(m as u8), ecl: Some(e as u8), version: Some(v as u8), ..Opts::default() }));
+                            }
+                        }
+                    }
+                }
+            }
+        }
+    }
+    Space { name: format!("S_edges{}", if thorough { "" } else { "/quick" }), describe: format!("payloads of length capacity and capacity+1 whose first or last character is NUL / blank / LF / CR / TAB (Byte), blank / '0' (Alphanumeric), '0' (Numeric), mode and level forced, version automatic, and the capacity+1 payload also with the version it does not fit forced: versions {:?} x 4 levels", versions), cases, exhaustive: true }
+}
+
 /// S_runs: a run of c equal characters (c = 1..=13, 16, 17, 32, 33, 64) that starts at offset 0..=5 and is followed by
 /// 0, 1, 2, 3 or 5 other characters, for the characters whose encoded value is all zeros or all ones or a round number
 /// in each mode ('0' and '9' in Numeric; '0', 'A', blank, ':' in Alphanumeric; 0x00, 'a', 0xFF in Byte), with the mode
